@@ -754,13 +754,11 @@ def check_collection(spec, ctx=None):
             if ctx: ctx.case(key_now + ("skipped",), nontrivial=False)
             return []
         finalized = False
-    fails = {}
+    fails = {}                    # (src, parameter class, when, expectation tag, mode) -> what
     def fail(j, when, mode, what, reason=""):
         pc = "" if name in ("Cache", "Chunk") or j is None else pclass(f, envs[j], reason)
         pc = "/".join(x for x in pc.split("/") if x and not x.startswith("seed="))
-        sig = name + (f"/{pc}" if pc else "") + "/collection" + (f"/{when}" if when else "") + \
-              (f"/{_where_tag(reason)}" if _where_tag(reason) else "") + f"/mode={mode}"
-        fails.setdefault(sig, what)
+        fails.setdefault((j, pc, when, _where_tag(reason), mode), what)
 
     bases  = [build_env(e) for e in envs]
     snaps  = [[canon(i) for i in b] for b in bases]
@@ -776,7 +774,22 @@ def check_collection(spec, ctx=None):
 
     def finish():
         if ctx: ctx.case(key_now, nontrivial=nontrivial)
-        return [(sig, what[:1500]) for sig, what in fails.items()]
+        # mechanism minimisation: an environment that is fine when it is the ONLY member of the collection (same reads)
+        # fails because of its siblings -- then the position of the failing read is not part of the mechanism
+        alone_ok = {}
+        if fails and not spec.get("_alone") and len(envs) > 1:
+            for j in {k_[0] for k_ in fails if k_[0] is not None}:
+                ns = len(seeds)
+                solo = dict(spec, envs=[envs[j]], _alone=True,
+                            rounds=[dict(r, perm=[i % ns for i in r["perm"] if i // ns == j]) for r in rounds])
+                try:    alone_ok[j] = not check_collection(solo)
+                except Exception: alone_ok[j] = False
+        out = {}
+        for (j, pc, when, tag, mode), what in fails.items():
+            if alone_ok.get(j): when = "only-with-siblings"
+            sig = name + (f"/{pc}" if pc else "") + "/collection" + (f"/{when}" if when else "") + (f"/{tag}" if tag else "") + f"/mode={mode}"
+            out.setdefault(sig, what[:1500])
+        return list(out.items())
 
     # ---- one shortcut call over the whole collection
     try:
